@@ -27,7 +27,8 @@ def _pva(m, cfg, perm=False):
     pd = m["pd"]
     k = cfg["k"]
     # (the property's domain reaches |lat| = 85)
-    vals = dict(lat=(50.0, -33.0, 0.0, 71.5, 84.9, -85.0)[k % 6], lon=(30.0, -120.0, 179.5)[k % 3], alt=(100.0, -50.0, 9000.0)[k % 3],
+    vals = dict(lat=(50.0, -33.0, 0.0, 71.5, 84.9, -85.0)[k % 6], lon=(30.0, -120.0, 179.99995, -179.99995)[k % 4], alt=(100.0, -50.0, 9000.0)[k % 3],   # within 4 m of the +-180 meridian on either side: a correction of tens of metres crosses it (seeded change C05_6)
+               
                 VN=float(cfg["vel"][0]), VE=float(cfg["vel"][1]), VD=float(cfg["vel"][2]),
                 roll=ANGLE[cfg["rq"]], pitch=0.0, heading=ANGLE[cfg["hq"]])
     labels = LLA + VEL + RPH
